@@ -2,7 +2,7 @@ From Coq Require Import List NArith ZArith Bool.
 Import ListNotations.
 Require Import MV.C11.Model MV.C11.Spec MV.C11.Exec MV.C11.ProofsFraming MV.C11.ProofsInv
         MV.C11.ProofsState MV.C11.ProofsCount MV.C11.ProofsOrder MV.C11.ProofsWire MV.C11.ProofsReflect
-        MV.C11.ProofsStream MV.C11.ProofsBook MV.C11.ProofsMain MV.C11.ProofsSpecOk.
+        MV.C11.ProofsStream MV.C11.ProofsBook MV.C11.ProofsMain MV.C11.ProofsSpecOk MV.C11.Wake.
 From Coq Require Import Permutation.
 Open Scope N_scope.
 Require Import MV.C11.Properties.
@@ -100,3 +100,8 @@ Check (C11_example_run : Forall ev_wf ex_events /\
     lookup 2 (clients sf) = Some c /\ overflowed c = false /\ obs_ok obs = true /\
     split_frames (sent c) = ([[10; 11; 10; 1; 109; 16; 1; 26; 1; 115; 34; 1; 100]; [7; 7]; [8; 8]; [7; 7]], [])).
 Print Assumptions C11_example_run.
+Check (C11_wake_always_never_stuck : forall n cap ls s,
+  wrun WakeAlways cap (winit n) ls = Some s -> ~ stuck s).
+Print Assumptions C11_wake_always_never_stuck.
+Check (C11_wake_if_was_empty_gets_stuck : exists s, wrun WakeIfWasEmpty 4096 (winit 1) lost_wakeup_schedule = Some s /\ stuck s).
+Print Assumptions C11_wake_if_was_empty_gets_stuck.
